@@ -8,7 +8,13 @@ VARIABLE l
 
 Log == ndJsonDeserialize("trace.ndjson")
 
-TraceInit == Init /\ l = 1
+\* The first line of the log is an Init event: start from its facts (enumerating every
+\* fact combination of Init here would only be overwritten by Reset0).
+TraceInit ==
+  /\ f = Log[1].ev.cfg
+  /\ done = FALSE
+  /\ ev = [a |-> "Init", cfg |-> f]
+  /\ l = 1
 
 Reset0 ==
   /\ f' = Log[l].ev.cfg
@@ -34,6 +40,7 @@ KnownFacts ==
   /\ f.sender \in {"none", "ok", "ban"}
   /\ f.target \in {"none", "ok", "ban", "disband", "ban_disband"}
   /\ f.receiver \in {"none", "closed", "stranger"}
+  /\ f.mix \in Mixes
 
 HW       == TLCSet(1, IF l > TLCGet(1) THEN l ELSE TLCGet(1))
 Track    == HW
